@@ -9,6 +9,9 @@ Statements quantify over every world: any gate wiring, any number of modules and
 -/
 import Desverif.Proofs.TopoSpan
 import Desverif.Proofs.GateWalk
+import Desverif.Proofs.TopoConnected
+import Desverif.Proofs.TopoFilter
+import Desverif.Proofs.TopoDijkstra
 namespace C19
 open Topo Gate
 
@@ -147,6 +150,96 @@ theorem bidirectional_iff (t : T) :
       ∀ src, src < t.edges.length → ∀ e ∈ t.edgesAt src, ∃ e' ∈ t.edgesAt e.dst, e'.dst = src := by
   simp only [bidirectional, List.all_eq_true, List.any_eq_true, List.mem_range, beq_iff_eq]
 
+/-- **connected.** `connected()` — one depth-first search per start node, comparing the number of
+    visited nodes with the number of nodes — returns true exactly if every node reaches every node
+    (strong connectivity), for every well-formed topology. -/
+theorem connected_iff_strongly_connected (t : T) (hwf : t.WF) :
+    connected t = true ↔ ∀ a b, a < t.nodes.length → b < t.nodes.length → t.Reach a b := by
+  simp only [connected, List.all_eq_true, List.mem_range, beq_iff_eq]
+  constructor
+  · intro h a b ha hb
+    obtain ⟨hnd, hlt, hiff⟩ := visit_reachable t hwf a ha
+    exact (hiff b).mp ((full_of_length hnd hlt).mp (h a ha) b hb)
+  · intro h a ha
+    obtain ⟨hnd, hlt, hiff⟩ := visit_reachable t hwf a ha
+    exact (full_of_length hnd hlt).mpr (fun j hj => (hiff j).mpr (h a j ha hj))
+
+/-- each depth-first search of `connected()` visits exactly the nodes reachable from its start
+    node, each once (and never runs out of its depth budget) -/
+theorem connected_visit_eq_reachable (t : T) (hwf : t.WF) (start : Nat) (hs : start < t.nodes.length) :
+    (visit t (t.nodes.length + 1) start []).Nodup ∧
+    ∀ x, x ∈ visit t (t.nodes.length + 1) start [] ↔ t.Reach start x :=
+  ⟨(visit_reachable t hwf start hs).1, (visit_reachable t hwf start hs).2.2⟩
+
+/-- **filter_nodes.** For every well-formed topology and every predicate: the kept nodes are the
+    selected nodes in their old order; the result is well-formed; the node that had index `i` gets
+    index `rank i` (= number of selected nodes before it), every new index arises this way, and its
+    edges are exactly its old edges whose destination is selected, in order, with the destination
+    re-indexed by `rank` (so they still lead to the same module). -/
+theorem filter_keeps_selected_and_induced_edges (t : T) (hwf : t.WF) (f : Nat → Bool) :
+    (filterNodes t f).nodes = t.nodes.filter f ∧ (filterNodes t f).WF ∧
+    (∀ i m, t.nodes[i]? = some m → f m = true →
+      (filterNodes t f).nodes[rank t f i]? = some m ∧
+      (filterNodes t f).edgesAt (rank t f i) =
+        (t.edgesAt i).filterMap fun e =>
+          if f (t.nodes.getD e.dst 0) then some { e with dst := rank t f e.dst } else none) ∧
+    (∀ i', i' < (filterNodes t f).nodes.length →
+      ∃ i m, t.nodes[i]? = some m ∧ f m = true ∧ rank t f i = i') := by
+  have hn : (filterNodes t f).nodes = t.nodes.filter f := by rw [filterNodes_eq t hwf f]
+  refine ⟨hn, filterNodes_wf t hwf f, ?_, ?_⟩
+  · intro i m hi hm
+    refine ⟨by rw [hn]; exact filterNodes_node t f i m hi hm, ?_⟩
+    rw [filterNodes_bundle t hwf f i m hi hm]
+    rfl
+  · intro i' hi'
+    rw [hn] at hi'
+    obtain ⟨i, x, h1, h2, h3⟩ := rank_surj f t.nodes i' hi'
+    exact ⟨i, x, h1, h2, h3⟩
+
+/-- **dijkstra.** With the first-in first-out work-list, for every well-formed topology:
+    an unknown source is refused; otherwise the loop terminates within its fuel and the result has
+    one entry per node `j ≠ source` reachable from the source and no other entry; the entry of `j` is
+    an edge that leaves the source node and is the first edge of a walk from the source to `j` of
+    minimum hop count (`d + 1` hops, and no walk to `j` is shorter). -/
+theorem dijkstra_first_edge_of_min_hop_path (t : T) (hwf : t.WF) (src : Nat) :
+    (indexOf t.nodes src = none → dijkstra t .front src = none) ∧
+    ∀ s, indexOf t.nodes src = some s →
+      ∃ L : List (Nat × FullEdge),
+        dijkstra t .front src = some (L.map fun entry => (t.nodes.getD entry.1 0, entry.2)) ∧
+        (L.map (·.1)).Nodup ∧
+        (∀ j fe, (j, fe) ∈ L → j ≠ s ∧ fe.src = s ∧ fe.e ∈ t.edgesAt s ∧
+          ∃ d, t.Walk fe.e.dst j d ∧ t.Walk s j (d + 1) ∧ ∀ m, t.Walk s j m → d + 1 ≤ m) ∧
+        (∀ j, j ≠ s → t.Reach s j → ∃ fe, (j, fe) ∈ L) := by
+  constructor
+  · intro h; simp [dijkstra, h]
+  · intro s hs
+    have hslt : s < t.nodes.length := by
+      have := indexOf_some hs
+      by_cases h : s < t.nodes.length
+      · exact h
+      · rw [List.getElem?_eq_none (by omega)] at this; cases this
+    have hfuel : [QE.mk s 0 none].length + usum t (List.range t.nodes.length) [] + 1 ≤ t.size + 2 := by
+      rw [← hwf.1, usum_nil]; simp; omega
+    obtain ⟨V', M', hrun, hinv⟩ := dijkstraLoop_spec t hwf s (t.size + 2) [] [⟨s, 0, none⟩] []
+      (dinv_init t s hslt) hfuel
+    refine ⟨M', by simp [dijkstra, hs, hrun], hinv.mkeys, ?_, ?_⟩
+    · intro j fe hmem
+      obtain ⟨_, hne, h1, h2, d, h3, h4, h5⟩ := hinv.mgood (j, fe) hmem
+      exact ⟨hne, h1, h2, d, h3, h4, h5⟩
+    · intro j hjs ⟨m, hm⟩
+      rcases hinv.cover hm with hv | ⟨q, hq, _⟩
+      · exact hinv.mall j hv hjs
+      · simp at hq
+
+/-- the breadth-first level structure behind `dijkstra_first_edge_of_min_hop_path`: the loop
+    invariant (queue sorted by distance, at most two consecutive levels, …) is preserved when the
+    front element is skipped or visited -/
+theorem dijkstra_level_invariant (t : T) (hwf : t.WF) (s : Nat) (V : List Nat) (cur : QE) (rest : List QE)
+    (M : List (Nat × FullEdge)) (h : DInv t s V (cur :: rest) M) :
+    (cur.idx ∈ V → DInv t s V rest M) ∧
+    (cur.idx ∉ V → DInv t s (V ++ [cur.idx]) (rest ++ pushes t (V ++ [cur.idx]) cur) (newMapping M cur)) :=
+  ⟨fun hv => h.skip hv, fun hv => h.visit hwf hv⟩
+
 /-! ### the code before the repair (work-lists popped from the back) is wrong -/
 
 /-- triangle m0–m1 (gates 0,1), m0–m2 (gates 2,3), m2–m1 (gates 4,5) -/
@@ -179,5 +272,12 @@ example : dijkstra (current tri) .front 0 = some [(1, ⟨0, ⟨1, 0, 1⟩⟩), (
 example : ∀ g, g < 6 → (walk tri.net tri.ngates g true).length ≤ 16 := by decide
 example : bidirectional (current tri) = true ∧ connected (current tri) = true := by decide
 example : Reach tri 0 2 := Reach.step Reach.refl ⟨2, by decide, by decide, by decide⟩
+
+example : (current tri).WF := by decide
+example : (filterNodes (current tri) (fun m => m != 1)).nodes = [0, 2] ∧
+    (filterNodes (current tri) (fun m => m != 1)).edges = [[⟨1, 2, 3⟩], [⟨0, 3, 2⟩]] := by decide
+example : rank (current tri) (fun m => m != 1) 2 = 1 := by decide
+example : (current tri).Reach 0 2 := ⟨1, T.Walk.step T.Walk.refl ⟨⟨2, 2, 3⟩, by decide, rfl⟩⟩
+example : indexOf (current tri).nodes 0 = some 0 := by decide
 
 end C19
